@@ -21,7 +21,8 @@ Open Scope Z_scope.
    The executable definition of that class is the generator of harness/parser/gen.go; the
    correspondence run of the check compares implementation, model and denotation on it.
 
-   PROVED (below): the statement for all 16 dispatching kinds and unknown lines (top-level SG_ excepted), any count
+   PROVED (below): the statement for all 16 dispatching kinds and unknown lines (a top-level SG_ line anywhere except
+   directly after a BO_ block, where the parser reads it as a signal of that message), any count
    and order, in the layouts described by [wf_lfile cr its gend]: one line per definition or signal,
    tokens separated by single spaces, every line terminated by the same run [cr] of spaces and carriage
    returns followed by LF ([cr] = [] : LF files, [13] : CRLF files, spaces : trailing blanks), any
@@ -45,7 +46,7 @@ Open Scope Z_scope.
    escaped quote and backslash-character pairs (kept verbatim); the text of CM_ may in addition contain
    line ends (each read as one space; the following definitions are then positioned on the later
    lines) and a backslash before anything but a quote; positions of value descriptions included.
-   NOT covered by the proof: top-level SG_, UTF-8 in strings, line ends in strings other than the
+   NOT covered by the proof: UTF-8 in strings, line ends in strings other than the
    CM_ text, the other layouts (indentation, extra spaces between tokens, empty gaps next to
    punctuation, line ends inside definitions, blank lines between the SG_ lines of a message or the
    symbol lines of NS_, tabs as blanks, line-end runs that differ from line to line). *)
@@ -92,9 +93,10 @@ Proof. exact (fun il id => conj (f9_old il id) (f9_fixed il id)). Qed.
 
 (** non-vacuity: a source file with all covered kinds satisfies the hypothesis of the round trip
     (VERSION "1.0" / BS_: 500 : 1 , 2 / BU_: ECU1 ECU2 / BO_ 2566844926 Msg : 8 ECU1 with two lines
-    SG_ Speed m3 : 7 | 16 @ 0 - ( 0.5 , -1.5e1 ) [ -40 | 6E+3 ] "km/h" ECU2 , ECU1 / FOO_ x 12 ; / BS_: /
+    SG_ Speed m3 : 7 | 16 @ 0 - ( 0.5 , -1.5e1 ) [ -40 | 6E+3 ] "km/h" ECU2 , ECU1 / FOO_ x 12 ; / the same SG_
+    line at top level / BS_: /
     VERSION "") ... *)
-Example C04_nonvacuous : wf_file sample_ds /\ List.length sample_ds = 7%nat.
+Example C04_nonvacuous : wf_file sample_ds /\ List.length sample_ds = 8%nat.
 Proof. exact (conj sample_ds_wf_file eq_refl). Qed.
 
 (** ... as does a file with NS_ (two symbols, then an empty NS_) and the one-line kinds (CM_ SG_ 1 S "hi" ; / CM_ with escaped quotes, backslashes and three line ends in the text ; / VAL_ 1 S -1 "a" 2 "" ; /
